@@ -40,6 +40,7 @@ struct PlanT {
     uint64_t content_seed = 0;
     int sessions = 1;
     int relation[3] = {0, 0, 0}; // session i vs session 0: 0 independent, 1 same key, 2 same header, 3 twin (both)
+    uint32_t stack_fill = 0;     // stale stack under every library call: 0 as left by the harness, 1 zeros, 2 0xA5 bytes, 3 0xFF bytes
     uint32_t key_in_state = 0;   // bit 0 / bit 1: the key handed to init_push / init_pull lives in the state object being initialised (state->k)
     uint32_t state_align = 0;    // two 4-bit offsets: where the sender's / receiver's state object sits modulo 16
     uint32_t start_counter = 0;  // both ends' chunk counter := this value right after init (0 = leave at 1): simulates a long-lived stream
@@ -84,6 +85,15 @@ struct Exact {
     Exact(const Exact &) = delete;
 };
 
+// two caller buffers carved out of one exact-size heap block so that they touch (the second starts where the first
+// ends): disjoint but adjacent, as two members of one struct or two halves of one I/O buffer would be
+struct Adjacent {
+    unsigned char *base, *first, *second;
+    Adjacent(size_t n1, size_t n2, size_t off) : base((unsigned char *) malloc(n1 + n2 + off ? n1 + n2 + off : 1)), first(base + off), second(base + off + n1) {}
+    ~Adjacent() { free(base); }
+    Adjacent(const Adjacent &) = delete;
+};
+
 struct Exec {
     const PlanT &plan;
     Result res;
@@ -93,6 +103,9 @@ struct Exec {
     bool any_fault = false;
 
     explicit Exec(const PlanT &p) : plan(p) {}
+    void stale_stack() {
+        if (plan.stack_fill == 1) dirty_stack(0); else if (plan.stack_fill == 2) dirty_stack(0xA5A5A5A5A5A5A5A5ull); else if (plan.stack_fill == 3) dirty_stack(~0ull);
+    }
 
     void content(ref::Bytes &out, size_t n, uint64_t salt) {
         out.resize(n);
@@ -167,17 +180,27 @@ struct Exec {
         if (it.tag & 2) res.count("probe.rekey_tag");
         size_t al = op.align; // 0..15: alignment of the caller's buffers
         Exact m(it.m.data(), it.m.size(), al & 15), ad(it.ad.data(), it.ad.size(), (al >> 4) & 15), out(it.m.size() + crypto_secretstream_xchacha20poly1305_ABYTES, (al >> 8) & 15);
+        unsigned layout = (unsigned) (al >> 12) & 3; // 2: [message][chunk] touching, 3: [chunk][message] touching
+        size_t clen = it.m.size() + crypto_secretstream_xchacha20poly1305_ABYTES;
+        Adjacent adj(layout == 2 ? it.m.size() : clen, layout == 2 ? clen : it.m.size(), layout >= 2 ? (al & 15) : 0);
+        unsigned char *mp = m.p, *outp = out.p;
+        if (layout >= 2) {
+            mp = layout == 2 ? adj.first : adj.second; outp = layout == 2 ? adj.second : adj.first;
+            if (it.m.size()) memcpy(mp, it.m.data(), it.m.size());
+            res.count("probe.adjacent_buffers");
+        }
         unsigned long long outlen = 12345;
         int rc;
+        stale_stack();
         {
             LibScope l;
-            rc = crypto_secretstream_xchacha20poly1305_push(&s.ps(), out.p, op.null_outlen ? nullptr : &outlen, (op.null_ad && it.m.empty()) ? nullptr : m.p, it.m.size(),
+            rc = crypto_secretstream_xchacha20poly1305_push(&s.ps(), outp, op.null_outlen ? nullptr : &outlen, (op.null_ad && it.m.empty()) ? nullptr : mp, it.m.size(),
                                                             (op.null_ad && it.ad.empty()) ? nullptr : ad.p, it.ad.size(), it.tag);
         }
         const char *ctx = context_of(s, before);
         if (rc != 0) res.fail("push-failed", ctx, "push returned " + std::to_string(rc), step);
         if (!op.null_outlen && outlen != it.m.size() + 17) res.fail("push-length", ctx, "outlen=" + std::to_string(outlen), step);
-        it.chunk.assign(out.p, out.p + out.n);
+        it.chunk.assign(outp, outp + clen);
         if (it.chunk != expect)
             res.fail("chunk-mismatch", ctx, "chunk differs from the documented ChaCha20-Poly1305 construction (mlen=" + std::to_string(op.mlen) + " adlen=" + std::to_string(op.adlen) + " tag=" + std::to_string(it.tag) + ")", step);
         if (!real_eq_model(s.ps(), s.model_push)) res.fail("state-desync", std::string("push/") + ctx, "sender state differs from model after push", step);
@@ -246,11 +269,20 @@ struct Exec {
         Exact in(bytes.data(), bytes.size(), al & 15), adb(ad.data(), ad.size(), (al >> 4) & 15);
         size_t mcap = bytes.size() >= 17 ? bytes.size() - 17 : 0;
         Exact mout(mcap, (al >> 8) & 15);
+        unsigned layout = (unsigned) (al >> 12) & 3; // 2: [plaintext][chunk] touching, 3: [chunk][plaintext] touching
+        Adjacent adj(layout == 2 ? mcap : bytes.size(), layout == 2 ? bytes.size() : mcap, layout >= 2 ? (al & 15) : 0);
+        unsigned char *inp = in.p, *moutp = mout.p;
+        if (layout >= 2) {
+            moutp = layout == 2 ? adj.first : adj.second; inp = layout == 2 ? adj.second : adj.first;
+            if (bytes.size()) memcpy(inp, bytes.data(), bytes.size());
+            res.count("probe.adjacent_buffers");
+        }
         unsigned long long mlen = 777; unsigned char tag = 0x55;
         int rc;
+        stale_stack();
         {
             LibScope l;
-            rc = crypto_secretstream_xchacha20poly1305_pull(st, (op.null_ad && mcap == 0) ? nullptr : mout.p, op.null_mlen ? nullptr : &mlen, op.null_tag ? nullptr : &tag, in.p, bytes.size(),
+            rc = crypto_secretstream_xchacha20poly1305_pull(st, (op.null_ad && mcap == 0) ? nullptr : moutp, op.null_mlen ? nullptr : &mlen, op.null_tag ? nullptr : &tag, inp, bytes.size(),
                                                             (op.null_ad && ad.empty()) ? nullptr : adb.p, ad.size());
         }
         dg.add((uint64_t) (rc == 0));
@@ -272,7 +304,7 @@ struct Exec {
         // accepted as expected
         if (!op.null_mlen && mlen != mm.size()) res.fail("wrong-mlen", fname, "mlen=" + std::to_string(mlen), step);
         if (!op.null_tag && tag != mtag) res.fail("wrong-tag", fname, "tag=" + std::to_string(tag) + " expected " + std::to_string(mtag), step);
-        if (mm.size() && memcmp(mout.p, mm.data(), mm.size()) != 0) res.fail("wrong-plaintext", fname, "decrypted message differs", step);
+        if (mm.size() && memcmp(moutp, mm.data(), mm.size()) != 0) res.fail("wrong-plaintext", fname, "decrypted message differs", step);
         if (!real_eq_model(*st, mst)) res.fail("state-desync", "pull", "receiver state differs from model after accepted pull", step);
         if (genuine_next) {
             const Item &it = dst.log[idx];
@@ -474,6 +506,7 @@ struct C09 {
         p.sessions = (int) (knobs.below(10) < 5 ? 1 : knobs.below(10) < 7 ? 2 : 3);
         p.state_align = (uint32_t) knobs.below(256);
         p.key_in_state = knobs.chance(1, 6) ? (uint32_t) knobs.range(1, 3) : 0;
+        p.stack_fill = (uint32_t) knobs.below(4);
         for (int i = 1; i < 3; i++) p.relation[i] = (int) knobs.below(4);
         {
             // 1, or shortly before a boundary of the little-endian counter: full wrap (automatic rekey), and
@@ -499,7 +532,7 @@ struct C09 {
             Op op;
             unsigned c = (unsigned) ops.below(100);
             op.s = (int) ops.below((uint64_t) p.sessions);
-            op.align = ops.chance(1, 2) ? 0 : (uint32_t) ops.below(4096);
+            op.align = ops.chance(1, 2) ? 0 : (uint32_t) ops.below(4 * 4096); // bits 12-13: buffer layout (separate blocks / touching)
             if (c < 42 || pushed[(size_t) op.s] == 0) {
                 op.kind = OP_PUSH;
                 unsigned t = (unsigned) ops.below(10);
@@ -538,7 +571,7 @@ struct C09 {
         j["knobs"] = p.pk;
         j["content_seed"] = p.content_seed; j["sessions"] = p.sessions;
         Json rel = Json::array(); for (int i = 0; i < 3; i++) rel.push(p.relation[i]);
-        j["relation"] = rel; j["start_counter"] = p.start_counter; j["state_align"] = p.state_align; j["key_in_state"] = p.key_in_state;
+        j["relation"] = rel; j["start_counter"] = p.start_counter; j["state_align"] = p.state_align; j["key_in_state"] = p.key_in_state; j["stale_stack"] = p.stack_fill;
         Json ops = Json::array();
         for (auto &o : p.ops) {
             Json q = Json::object();
@@ -570,7 +603,7 @@ struct C09 {
         if (p.sessions < 1) p.sessions = 1;
         if (p.sessions > 3) p.sessions = 3;
         for (size_t i = 0; i < 3 && i < j.at("relation").a.size(); i++) p.relation[i] = (int) j.at("relation").a[i].i64();
-        p.start_counter = (uint32_t) j.at("start_counter").u64(); p.state_align = (uint32_t) j.at("state_align").u64(); p.key_in_state = (uint32_t) j.at("key_in_state").u64();
+        p.start_counter = (uint32_t) j.at("start_counter").u64(); p.state_align = (uint32_t) j.at("state_align").u64(); p.key_in_state = (uint32_t) j.at("key_in_state").u64(); p.stack_fill = (uint32_t) j.at("stale_stack").u64();
         for (auto &q : j.at("ops").a) {
             Op o;
             std::string k = q.at("op").str();
@@ -606,6 +639,7 @@ struct C09 {
         if (p.start_counter) { Plan c = p; c.start_counter = 0; push(c); }
         if (p.state_align) { Plan c = p; c.state_align = 0; push(c); }
         if (p.key_in_state) { Plan c = p; c.key_in_state = 0; push(c); }
+        if (p.stack_fill) { Plan c = p; c.stack_fill = 0; push(c); }
         if (p.start_counter && p.start_counter != 0xffffffffu) { Plan c = p; c.start_counter = 0xffffffffu; push(c); }
         if (p.sessions > 1) { Plan c = p; c.sessions--; push(c); }
         for (int i = 1; i < 3; i++) if (p.relation[i]) { Plan c = p; c.relation[i] = 0; push(c); }
